@@ -27,7 +27,7 @@ def _spec(module):
         return [{
             'units': {'cJSON.c': 'core_min.c', 'cJSON_Utils.c': 'utils_bad.c'},
             'rules': [tab.tab8, tab.tab9, tab.tab10, tab.tab11, tab.tab12, lst.lst1, out.out5, out.out6, out.out7,
-                      utilsx.tab18, utilsx.ord1, tab.tab20, utilsx.mrg, utilsx.esc1, utilsx.pfx1, utilsx.gen1, utilsx.gen2, utilsx.numu, utilsx.mrg5, lambda units, R: utilsx.ord2(units, R, floor=0), utilsx.idx1, lambda units, R: utilsx.fnd1(units, R, 'bad_FND1_find'), lambda units, R: utilsx.fnd1(units, R, 'good_find'), utilsx.esc2, utilsx.esc3, lambda units, R: utilsx.esc4(units, R, floor=0), utilsx.esc5, utilsx.own11,
+                      utilsx.tab18, utilsx.ord1, tab.tab20, utilsx.mrg, utilsx.esc1, utilsx.pfx1, utilsx.gen1, utilsx.gen2, utilsx.numu, utilsx.mrg5, lambda units, R: utilsx.ord2(units, R, floor=0), utilsx.idx1, lambda units, R: utilsx.fnd1(units, R, 'bad_FND1_find'), lambda units, R: utilsx.fnd1(units, R, 'good_find'), utilsx.esc2, utilsx.esc3, lambda units, R: utilsx.esc4(units, R, floor=0), utilsx.esc5, utilsx.own11, lambda units, R: utilsx.mrg6(units, R, names=('bad_MRG6_skips_empty_name', 'good_every_name')),
                       lambda units, R: utilsx.ptr1(units, R, 'bad_PTR1_resolve'), lambda units, R: utilsx.ptr1(units, R, 'good_resolve'),
                       lambda units, R: utilsx.ptr1(units, R, 'good_resolve_checked_first'),
                       lambda units, R: utilsx.dig1(units, R, unit_names=('cJSON_Utils.c',))],
